@@ -113,8 +113,28 @@ def outer_summand_query(rng: random.Random, uni: qgen.Universe) -> Tuple[str, se
         return f'ds.Select(lambda e: e.{a}("b1").Select(lambda o: e.{b}("b1").Where(lambda w: e.{c}("b2").Select(lambda t: o.{m}()){agg} > 1).Count()))', set()
     return f'ds.Select(lambda e: e.{a}("b1").Select(lambda o: (o.{m}() if o.nTrk() > 1 else e.{b}("b1").Select(lambda s: (e.{c}("b1").Select(lambda t: s.{m}()){agg} if s.isGood() else 1.0)).Sum())))', {"ifexp"}
 
+# the first line is a statement that ends in a closing brace and is sent WITHOUT its semicolon (the translator terminates every line)
 MIX_MD = {"metadata_type": "add_cpp_function", "name": "fv_mix", "include_files": [], "arguments": ["a", "b"],
-          "code": ["auto result = a*2.0 + b;"], "return_type": "double"}
+          "code": ["double fv_pair[2] = {a*2.0, b}", "auto result = fv_pair[0] + fv_pair[1];"], "return_type": "double"}
+
+
+def user_block_errors(prog) -> List[str]:
+    """Every line of an injected C++ function's block is a terminated statement (each supplied line is one statement; the translator
+    adds the semicolon when the line was sent without one)."""
+    out: List[str] = []
+
+    def walk(x):
+        if isinstance(x, list):
+            if len(x) >= 2 and x[0] == "user" and isinstance(x[1], list) and all(isinstance(l, str) for l in x[1]):
+                for ln in x[1]:
+                    if not ln.rstrip().endswith(";"):
+                        out.append(ln.strip())
+            else:
+                for y in x:
+                    walk(y)
+
+    walk(prog)
+    return out
 
 
 # two inject_code blocks whose code lines repeat (closing braces, the same guard in two places, #if/#endif pairs): every line is
@@ -489,6 +509,8 @@ def run_case(model: core.Model, backend: str, src: str, feat: set, uni: qgen.Uni
                 pass  # the first rendering's parse decides (below)
     for t in (token_errors(backend, c.prog) if c.prog is not None else []):
         r.findings.append(("c02:token", t))
+    for ln in (user_block_errors(c.prog) if c.prog is not None else []):
+        r.findings.append(("c02:injected-line-unterminated", f"a line of an injected C++ function is emitted without its terminating semicolon: {ln!r}"))
     if c.status == "unparsed":
         if "else without a preceding if" in c.note:
             r.findings.append((_key_for("else", "", r.feat) if "agg_summand_outer_only" in r.feat else "c02:else-without-if",
